@@ -1,6 +1,6 @@
 (* C12 -- property theorems only. *)
 From Coq Require Import Permutation.
-From GV Require Import Base.Prelude Model.C04 Model.C12 Proofs.C12.
+From GV Require Import Base.Prelude Model.C04 Model.C05 Model.C12 Proofs.C12 Model.C12M Proofs.C12M.
 
 (* The (repaired) pairwise scan reports exactly the collective pairs of the sorted table *)
 Theorem C12_scan_is_spec : forall W d2 maxd2 mt l,
@@ -53,3 +53,10 @@ Theorem C12_old_loop_refuted : exists W d2 maxd2 l,
   stop_sorted l = true /\ outer_old W d2 maxd2 l <> coll_pairs W d2 maxd2 l.
 Proof. exact outer_old_refuted. Qed.
 Print Assumptions C12_old_loop_refuted.
+
+(* the label-pair matrix (site_pair_count_matrix): every collective pair is counted in exactly one cell, so the matrix sums to their number *)
+Theorem C12_label_pair_matrix_total : forall labels cj (P : list (Z * Z)), NoDup P ->
+  (forall x, In x cj -> In (lp labels (fst x)) P /\ In (lp labels (snd x)) P) ->
+  lp_total labels cj P = Z.of_nat (length cj).
+Proof. exact lp_matrix_total. Qed.
+Print Assumptions C12_label_pair_matrix_total.
